@@ -287,3 +287,8 @@ def add_spatial_full(u, sh):
         u.take(P, gh, 'is_point', C(ensures=['res == rel_eq_r(self.w.v@, 1real, eps_r(), eps_r())']))
         u.take(P, gh, 'is_direction', C(ensures=['res == rel_eq_r(self.w.v@, 0real, eps_r(), eps_r())']))
         u.take(P, gh, 'is_homogeneous', C(ensures=['res == (rel_eq_r(self.w.v@, 1real, eps_r(), eps_r()) || rel_eq_r(self.w.v@, 0real, eps_r(), eps_r()))']))
+
+
+def add_vec_zero_one(u, sh):
+    """impl Zero / One for the vector (needed where a vector is itself used as a scalar-like factor)"""
+    pass
